@@ -56,8 +56,8 @@ def nodelist_history(rng, res):
     cpn = rng.choice([1, 2, 4, 8])
     gpn = rng.choice([0, 1, 2])
     nn  = rng.randint(1, 3)
-    lfs = rng.choice([0, 100])
-    mem = rng.choice([0, 100])
+    lfs = rng.choice([0, 100, 100, 1024])
+    mem = rng.choice([0, 100, 100, 4096])
     blocked = sorted(rng.sample(range(cpn), rng.randint(0, min(2, cpn - 1)))) \
               if cpn > 1 else []
 
@@ -99,8 +99,8 @@ def nodelist_history(rng, res):
             slots = live.pop(key)
             case['ops'].append(['release', key])
             nl.release_slots(slots)
-            for kk in [kk for kk, u in cores.items() if u == key]:
-                del cores[kk]
+            for kk in list(cores):
+                cores[kk] = [e for e in cores[kk] if e[0] != key]
             for kk in list(gpus):
                 gpus[kk] = [e for e in gpus[kk] if e[0] != key]
             for b in (lfsb, memb):
@@ -108,12 +108,18 @@ def nodelist_history(rng, res):
                     held.pop(key, None)
             continue
         gocc = rng.choice([1.0, 1.0, 0.5, 0.25])
+        cocc = rng.choice([1.0, 1.0, 1.0, 0.5, 0.25])
+        # amounts which use a node's storage / memory up exactly are part of
+        # the class (halves and quarters of the capacity, the capacity itself)
         rr = rp.RankRequirements(
                 n_cores=rng.choice([1, 1, 2, rng.randint(1, cpn + 1)]),
+                core_occupation=cocc,
                 n_gpus=rng.choice([0, 0, rng.randint(0, gpn)]) if gpn else 0,
                 gpu_occupation=gocc,
-                lfs=rng.choice([0, 0, 30, 60]) if lfs else 0,
-                mem=rng.choice([0, 0, 30, 60]) if mem else 0,
+                lfs=rng.choice([0, 0, 30, 60, lfs // 4, lfs // 2, lfs])
+                    if lfs else 0,
+                mem=rng.choice([0, 0, 30, 60, mem // 4, mem // 2, mem])
+                    if mem else 0,
                 numa=bool(numa and rng.random() < 0.7))
         n = rng.choice([1, 1, 2, 3, 4])
         key = 'a%d' % k
@@ -143,22 +149,24 @@ def nodelist_history(rng, res):
                 if c.index in blocked:
                     res.violation('nodelist-blocked-core-used',
                                   'core %d' % c.index, case)
-                if (ni, c.index) in cores:
+                sh = cores.setdefault((ni, c.index), list())
+                sh.append((key, rr.core_occupation))
+                if sum(v for _, v in sh) > 1 + EPS:
                     res.violation('nodelist-core-double-booked',
-                                  'core %d node %d: %s and %s'
-                                  % (c.index, ni, cores[(ni, c.index)], key),
+                                  'core %d node %d: %s' % (c.index, ni, sh),
                                   case)
-                cores[(ni, c.index)] = key
             for g in s.gpus:
                 sh = gpus.setdefault((ni, g.index), list())
-                sh.append((key, g.occupation))
+                sh.append((key, rr.gpu_occupation))
                 tot = sum(v for _, v in sh)
                 if tot > 1 + EPS:
                     res.violation('nodelist-gpu-oversubscribed',
                                   'gpu %d node %d: %.2f' % (g.index, ni, tot),
                                   case)
-            for amt, book, cap, nm in ((s.lfs, lfsb, lfs, 'lfs'),
-                                       (s.mem, memb, mem, 'mem')):
+            # what the rank asked for is what it holds (whatever the slot
+            # record says - C02 checks the record)
+            for amt, book, cap, nm in ((rr.lfs, lfsb, lfs, 'lfs'),
+                                       (rr.mem, memb, mem, 'mem')):
                 if amt:
                     held = book.setdefault(ni, dict())
                     held[key] = held.get(key, 0) + amt
